@@ -250,6 +250,9 @@ def run_expr_case(case):
         try:
             for d, o in zip(case["defs"], leafobjs):
                 sv = sub[o] if needsSampling(o) else o
+                if isinstance(sv, numpy.generic):
+                    # e.g. TruncatedNormal samples are numpy.float64: x / 0 is inf (RuntimeWarning), not ZeroDivisionError
+                    rec["np_leaves"] = True
                 if d["kind"] == "mux":
                     leaves[d["idx"]] = enc(sv)
                     env[d["var"]] = eval(d["py"], env)[sv]
